@@ -2,6 +2,8 @@ import Taskpool.Props.Idle
 import Taskpool.Props.C04
 import Taskpool.Inv.MapHeldWalk
 import Taskpool.Inv.FinWalk
+import Taskpool.Inv.ApiWantWalk
+import Taskpool.Inv.GatherCount
 /-! # Quiescence: nothing is ever left waiting for the pool itself
 
 The properties say "eventually" (C02: every task is *eventually* accounted for; C04: *no invocation is lost*; C05:
@@ -149,5 +151,83 @@ theorem C04_all_invocations_at_quiescence (base : Nat) (h : History) (hn : h.NoS
       rw [hit] at a1
       exact ⟨by rw [ho, e], hit, by simpa using a1⟩
     · right; rw [ho, e]
+
+theorem World.api_run (base : Nat) (h : History) (i : Nat) (c : Cfg) (p : Pool)
+    (hc : ((World.init base).run h).cfgs[i]? = some c) (hp : ((World.init base).run h).pools[i]? = some p) : ApiWant p :=
+  (World.reachable apiInvariant base h (fun x _ => admits_all x)).inv i c p hc hp
+
+/-- **C08 / C13: the calls that wait do return.** After *every* history (resizes, `gather_and_close`, failures,
+cancellations included): whenever the loop is idle, every asyncio Task of the pool is done and every spawner has
+finished, **every `flush()` and every `gather_and_close()` call has returned** (normally or with an exception), and an
+call still suspended in `until_closed()` means that the pool is not closed — nobody is left hanging on a gather whose
+children have all completed (the count of a gather is exact, §4.5: every callback slot is counted, queued or registered
+on an uncompleted child), and the closing step wakes every waiter of the closing event. -/
+theorem C08_calls_return_at_quiescence (base : Nat) (h : History)
+    (hidle : ((World.init base).run h).ready = []) (i : Nat) (c : Cfg) (p : Pool)
+    (hc : ((World.init base).run h).cfgs[i]? = some c) (hp : ((World.init base).run h).pools[i]? = some p)
+    (hall : p.AllTasksDone) (hsp : ∀ (m : Nat) (r : Req), p.reqs[m]? = some r → r.outcome.isSome = true)
+    (a : Nat) (A : Api) (hA : p.apis[a]? = some A) :
+    A.outcome.isSome = true ∨ (A.frame = .waitClosed ∧ p.closed = false) := by
+  have hapi := World.api_run base h i c p hc hp
+  have hf : A.sched = false := by
+    have := World.idle_no_flag base h hidle i p hp (.api a)
+    simpa [Pool.flag, hA] using this
+  have nE : ¬ False := fun x => x
+  cases ho : A.outcome with
+  | some o => exact Or.inl rfl
+  | none =>
+    right
+    have hnd : A.frame ≠ .done := fun e => by
+      have := (hapi.dn a A hA nE).2 e
+      rw [ho] at this; cases this
+    have hgath : ∀ g, (A.frame = .gather1 g ∨ A.frame = .gather2 g) → False := by
+      intro g hg
+      obtain ⟨G, hG, _, hs⟩ := hapi.gw a A g hA nE hg
+      have hch := hapi.ch g G hG
+      have hdone : G.outer.isSome = true := by
+        refine World.gather_done_when_idle base h hidle i p hp g G hG ?_
+        intro ch hmem
+        have hex := hch ch hmem
+        cases ch with
+        | task t =>
+          simp only [Pool.childExists] at hex
+          obtain ⟨k, hk⟩ : ∃ k, p.tasks[t]? = some k := ⟨p.tasks[t], by simp [hex]⟩
+          simpa [Pool.childOutcome, hk] using hall t k hk
+        | spawner m =>
+          simp only [Pool.childExists] at hex
+          obtain ⟨r, hr⟩ : ∃ r, p.reqs[m]? = some r := ⟨p.reqs[m], by simp [hex]⟩
+          simpa [Pool.childOutcome, hr] using hsp m r hr
+      have := hs hdone
+      rw [hf] at this; cases this
+    cases hfr : A.frame with
+    | notStarted =>
+      have := hapi.ns a A hA nE hfr
+      rw [hf] at this; cases this
+    | done => exact absurd hfr hnd
+    | gather1 g => exact (hgath g (Or.inl hfr)).elim
+    | gather2 g => exact (hgath g (Or.inr hfr)).elim
+    | waitClosed =>
+      have hcw : a ∈ p.closedWaiters := by
+        rcases hapi.cw a A hA nE hfr with x | x
+        · exact x
+        · rw [hf] at x; cases x
+      have hncl : p.closed = false := by
+        cases hcl : p.closed with
+        | false => rfl
+        | true => rw [hapi.cl hcl] at hcw; cases hcw
+      exact ⟨rfl, hncl⟩
+
+/-- **C13: every `flush()` returns.** The same for histories without `pool_size` assignment and `gather_and_close`, with the
+premise about the spawners discharged by `C02_no_spawner_left_waiting`: whenever the loop is idle and user code holds
+nothing back, every `flush()` call — however many overlap — has returned, and a call suspended in `until_closed()` is
+waiting for a pool that is not closed. -/
+theorem C13_flush_returns_at_quiescence (base : Nat) (h : History) (hn : h.NoSetSize) (hg : ∀ x ∈ h, x.admits noGac = true)
+    (hidle : ((World.init base).run h).ready = []) (i : Nat) (c : Cfg) (p : Pool)
+    (hc : ((World.init base).run h).cfgs[i]? = some c) (hp : ((World.init base).run h).pools[i]? = some p)
+    (hsz : c.size0 = .inf ∨ ∃ n, c.size0 = .fin n ∧ 0 < n) (hall : p.AllTasksDone)
+    (a : Nat) (A : Api) (hA : p.apis[a]? = some A) :
+    A.outcome.isSome = true ∨ (A.frame = .waitClosed ∧ p.closed = false) :=
+  C08_calls_return_at_quiescence base h hidle i c p hc hp hall
+    (fun m r hr => C02_no_spawner_left_waiting base h hn hg hidle i c p hc hp hsz hall m r hr) a A hA
 
 end Taskpool
